@@ -634,7 +634,10 @@ class Share:
         if self._overrun_ok:
             # easy! this includes version number, sizes, and offsets
             want_it.add(0, 1024)
-            return
+            # ... but fall through, so that the pieces we cannot do without
+            # are also recorded as must-haves. Otherwise a server that
+            # answers with less than the offset table (a truncated or
+            # empty share) is asked for the same bytes again forever.
 
         # v1 has an offset table that lives [0x0,0x24). v2 lives [0x0,0x44).
         # To be conservative, only request the data that we know lives there,
